@@ -3,16 +3,17 @@ package chainsim
 import (
 	"encoding/binary"
 
+	"bytes"
 	"github.com/dominant-strategies/go-quai/crypto/multiset"
 	"github.com/dominant-strategies/go-quai/ethdb"
-	"bytes"
+	"github.com/dominant-strategies/go-quai/trie"
 	"sort"
 
+	"fmt"
 	"github.com/dominant-strategies/go-quai/core/types"
 	"math/big"
-	"strings"
-	"fmt"
 	"os"
+	"strings"
 	"testing"
 	"testing/synctest"
 
@@ -45,11 +46,11 @@ func inBubble(t *testing.T, f func()) {
 }
 
 type runResult struct {
-	fail   func() // non-nil: a violation to report outside the bubble
-	stats  map[string]int
-	digest string
-	nOps   int
-	blocks int
+	fail           func() // non-nil: a violation to report outside the bubble
+	stats          map[string]int
+	digest         string
+	nOps           int
+	blocks         int
 	prologueBlocks int
 	log            []string
 }
@@ -132,7 +133,6 @@ func runChainP(tt *testing.T, tr *simkit.Trace, cfg NodeConfig, regime Regime, p
 	res.log = tr.Log
 	return
 }
-
 
 type violation struct{ class, witness, detail string }
 
@@ -742,8 +742,65 @@ func TestC04(t *testing.T) {
 					checkEtxHistory(w, r.N, r.Head, fail)
 				}
 			},
+			PreDeliver: func(w *World, nd *Node, bi *BlockInfo, blk *types.WorkObject, sel int) {
+				forgePendingEtxs(w, nd, bi, blk, sel, fail)
+			},
 		}
 	})
+}
+
+// forgePendingEtxs plays a peer that saw the sealed block before the node processed it and pushes a batch of
+// "pending ETXs" for it that does not match the header's commitment at the dominant chains. Every such batch must be
+// refused and must not shadow the genuine one (the history oracle then also sees that nothing is lost or altered).
+func forgePendingEtxs(w *World, nd *Node, bi *BlockInfo, blk *types.WorkObject, sel int, fail func(class, witness, detail string)) {
+	if sel/16 < 3 { // half of the mined blocks
+		return
+	}
+	genuine := blk.OutboundEtxs()
+	var forged types.Transactions
+	var variant string
+	alter := func(tx *types.Transaction) *types.Transaction {
+		to := tx.To()
+		return types.NewTx(&types.ExternalTx{OriginatingTxHash: tx.OriginatingTxHash(), ETXIndex: tx.ETXIndex(), Gas: tx.Gas(), To: to, Value: new(big.Int).Add(tx.Value(), big.NewInt(1)), Data: tx.Data(), AccessList: tx.AccessList(), Sender: tx.ETXSender(), EtxType: tx.EtxType()})
+	}
+	switch v := sel % 4; {
+	case len(genuine) == 0:
+		// a block that emitted nothing: a peer invents an ETX for it
+		var prev *types.Transaction
+		for _, b := range w.lineOf(bi.Parent) {
+			if vb := b.Views[common.ZONE_CTX]; vb != nil && len(vb.OutboundEtxs()) > 0 {
+				prev = vb.OutboundEtxs()[0]
+				break
+			}
+		}
+		if prev == nil {
+			return
+		}
+		forged, variant = types.Transactions{prev}, "invented"
+	case v == 0:
+		forged, variant = types.Transactions{}, "emptied"
+	case v == 1:
+		forged, variant = append(types.Transactions{}, genuine[:len(genuine)-1]...), "truncated"
+	case v == 2:
+		forged = append(types.Transactions{}, genuine...)
+		forged[0] = alter(forged[0])
+		variant = "altered"
+	default:
+		forged, variant = append(append(types.Transactions{}, genuine...), genuine[0]), "duplicated"
+	}
+	for _, ctx := range []int{common.REGION_CTX, common.PRIME_CTX} {
+		err := nd.Cores[ctx].AddPendingEtxs(types.PendingEtxs{Header: blk.ConvertToPEtxView(), OutboundEtxs: forged})
+		simkit.Global.Inc("fault_forged_pending_etxs_" + variant)
+		w.Tr.Event("forged pending etxs %s for %x at ctx %d: %v", variant, bi.Hash[:4], ctx, err)
+		if err == nil {
+			fail("nothing-altered", "forged-pending-etxs-accepted variant="+variant, fmt.Sprintf("ctx %d stored a batch of %d pending ETXs for block %x whose header commits to %d ETXs (%x)", ctx, len(forged), bi.Hash[:6], len(genuine), blk.OutboundEtxHash()))
+			return
+		}
+		if got := nd.Cores[ctx].GetPendingEtxs(bi.Hash); got != nil && types.DeriveSha(got.OutboundEtxs, trie.NewStackTrie(nil)) != blk.OutboundEtxHash() {
+			fail("nothing-altered", "forged-pending-etxs-stored variant="+variant, fmt.Sprintf("ctx %d serves %d pending ETXs for block %x, header commits to %d", ctx, len(got.OutboundEtxs), bi.Hash[:6], len(genuine)))
+			return
+		}
+	}
 }
 
 // ---------------------------------------------------------------- C16 (one zone, one ledger, respected by state)
